@@ -120,6 +120,22 @@ class Normalizer(ast.NodeTransformer):
     def visit_For(self, node):
         self.generic_visit(node)
         node.body = self._clean_body(node.body)
+        # `for n in itertools.count(k): body`  ->  `n = k - 1; while True: n += 1; body` (a `continue` reaches the increment in
+        # both forms; the loop never runs dry, so an else-branch is dead)
+        it = node.iter
+        if (isinstance(it, ast.Call) and isinstance(node.target, ast.Name) and not it.keywords and len(it.args) <= 1
+                and ((isinstance(it.func, ast.Attribute) and it.func.attr == 'count' and isinstance(it.func.value, ast.Name)
+                      and it.func.value.id == 'itertools'))
+                and all(isinstance(a, ast.Constant) and type(a.value) is int for a in it.args)):
+            k = it.args[0].value if it.args else 0
+            init = ast.copy_location(ast.Assign(targets=[ast.Name(id=node.target.id, ctx=ast.Store())],
+                                                value=ast.Constant(value=k - 1)), node)
+            inc = ast.copy_location(ast.AugAssign(target=ast.Name(id=node.target.id, ctx=ast.Store()), op=ast.Add(),
+                                                  value=ast.Constant(value=1)), node)
+            loop = ast.copy_location(ast.While(test=ast.Constant(value=True), body=[inc] + node.body, orelse=[]), node)
+            for x in (init, inc, loop):
+                ast.fix_missing_locations(x)
+            return [init, loop]
         return node
 
     def visit_FunctionDef(self, node):
@@ -145,7 +161,58 @@ class Normalizer(ast.NodeTransformer):
                     st.body = [ast.copy_location(ast.Break(), st.body[0])]
         self._inline_return_temps(node)
         self._unzip_records(node)
+        self._unsentinel(node.body)
         return node
+
+    @staticmethod
+    def _unsentinel(body):
+        """`x = a if C else None; S; if x is None: <leaves>`  ->  `x = a; S; if not C: <leaves>`
+
+        where C calls a method of the name `a` (so `a` is an object when C holds), the plain assignments S neither mention x nor
+        bind a name that C reads, and the leaving branch does not read x: the None is only the messenger of `not C`."""
+        for i, st in enumerate(body):
+            if not (isinstance(st, ast.Assign) and len(st.targets) == 1 and isinstance(st.targets[0], ast.Name) and isinstance(st.value, ast.IfExp)):
+                continue
+            x, ie = st.targets[0].id, st.value
+            if not (isinstance(ie.orelse, ast.Constant) and ie.orelse.value is None and isinstance(ie.body, ast.Name)):
+                continue
+            a, C = ie.body.id, ie.test
+            if not any(isinstance(n, ast.Call) and isinstance(n.func, ast.Attribute) and isinstance(n.func.value, ast.Name) and n.func.value.id == a
+                       for n in ast.walk(C)):
+                continue
+            if any(isinstance(n, (ast.Lambda, ast.Await, ast.Yield, ast.YieldFrom, ast.NamedExpr)) for n in ast.walk(C)):
+                continue
+            cnames = {n.id for n in ast.walk(C) if isinstance(n, ast.Name)}
+            j = i + 1
+            ok = True
+            while j < len(body):
+                nx = body[j]
+                if isinstance(nx, ast.If):
+                    break
+                if not (isinstance(nx, ast.Assign) and all(isinstance(t, ast.Name) for t in nx.targets)):
+                    ok = False
+                    break
+                names = {n.id for n in ast.walk(nx) if isinstance(n, ast.Name)}
+                if x in names or ({t.id for t in nx.targets} & (cnames | {a})):
+                    ok = False
+                    break
+                j += 1
+            if not ok or j >= len(body):
+                continue
+            t = body[j]
+            tt = t.test
+            if not (isinstance(tt, ast.Compare) and len(tt.ops) == 1 and isinstance(tt.ops[0], ast.Is) and isinstance(tt.left, ast.Name) and tt.left.id == x
+                    and isinstance(tt.comparators[0], ast.Constant) and tt.comparators[0].value is None and not t.orelse):
+                continue
+            if not (t.body and isinstance(t.body[-1], (ast.Return, ast.Raise))):
+                continue
+            if any(isinstance(n, ast.Name) and n.id == x for b in t.body for n in ast.walk(b)):
+                continue
+            if x in cnames and x != a:
+                continue
+            st.value = ie.body
+            t.test = ast.copy_location(negate(C), tt)
+            ast.fix_missing_locations(t)
 
     def _unzip_records(self, fn):
         """`W = list(zip(A, B, C))` ... `a, b, c = W[i]`  ->  `a = A[i]; b = B[i]; c = C[i]` when W is bound once and used for nothing else
